@@ -1,7 +1,9 @@
 Require Extraction.
 Require Import ExtrOcamlBasic.
-From Zix Require Import BumpModel BumpSpec.
+From Zix Require Import BumpModel BumpSpec BumpNdebug.
 Separate Extraction BumpModel.bump_init BumpModel.bump_malloc BumpModel.bump_calloc BumpModel.bump_realloc
   BumpModel.bump_free BumpModel.bump_aligned_free BumpModel.bump_aligned_alloc
   BumpSpec.bump_run BumpSpec.trace_of BumpSpec.spec_check BumpSpec.spec_first_reject BumpSpec.spec_init
-  BumpSpec.req_ok BumpSpec.pattern.
+  BumpSpec.req_ok BumpSpec.pattern
+  BumpModel.bump_aligned_alloc_nd BumpNdebug.bump_run_nd BumpNdebug.spec_check_nd BumpNdebug.spec_first_reject_nd
+  BumpNdebug.req_ok_nd.
